@@ -391,7 +391,8 @@ def extract_values(h, art, workdir, failed, cap_t, cap_mem):
                             return None, pick
                         n = int(b, 2)
                         vals.append(list(n.to_bytes(len(b) // 8, "little")))
-                return vals, pick
+                # no named value found: harness crate uses an older common/sym.rs -> let the caller fall back
+                return (vals if vals else None), pick
     return None, pick
 
 
@@ -404,9 +405,16 @@ def concrete_playback(h, features):
     with Lock(os.path.join(TARGET, "playback.lock")):
         p = subprocess.run(cmd, cwd=HARNESS, env=ENV, stdout=subprocess.PIPE, stderr=subprocess.STDOUT, text=True)
     txt = p.stdout
-    m = re.search(r"let concrete_vals: Vec<Vec<u8>> = vec!\[(.*?)\];", txt, re.S)
+    # Kani prints one block per satisfied cover AND per failed check; take the first one that belongs to a failed check
+    m = None
+    for cand in re.finditer(r"((?:[ \t]*///[^\n]*\n)*)[ \t]*#\[test\]\s*fn \w+\(\) \{\s*let concrete_vals: Vec<Vec<u8>> = vec!\[(.*?)\];", txt, re.S):
+        if "Check for `cover`" in cand.group(1):
+            continue
+        m = cand
+        break
     if not m:
         return None
+    m = re.match(r"(.*)", m.group(2), re.S)
     vals = []
     for vm in re.finditer(r"vec!\[([\d,\s]*)\]", m.group(1)):
         s = vm.group(1).strip()
